@@ -319,7 +319,7 @@ def run_c14(sc):
         # B's solo log is taken in a forked child of its own: by now A has run three times in this process, and state
         # that PyXAB keeps outside its instances (class attributes, module-level caches) would already be in B's baseline
         from . import runner
-        bbase = runner.isolated(_solo_outcome, B)
+        bbase = runner.isolated(_solo_outcome, B) if sc.get("compare_B", True) else None
         r = _pyrandom.Random(H(sc.get("sched_seed", 0), "sched"))
         virtual = bool(sc.get("virtual_rng"))
         # virtual_rng: every instance has its own generator.  The statement names NumPy's global generator as the one
@@ -385,8 +385,8 @@ def run_c14(sc):
         if d or base != x.outcome(with_queries=True):
             return _result(sc, rounds, dg, seam, ("C14", "interleaving-differs", "instance A interleaved with %s%s: %s" % (
                 algo_label(B), " sharing the domain object" if sc.get("share_domain") else "", d or "queries differ"), rounds))
-        d = first_diff(bbase, y.outcome())
-        if d or bbase != y.outcome(with_queries=True):
+        d = first_diff(bbase, y.outcome()) if sc.get("compare_B", True) else None
+        if sc.get("compare_B", True) and (d or bbase != y.outcome(with_queries=True)):
             return _result(sc, rounds, dg, seam, ("C14", "interleaving-differs", "instance B (%s) interleaved with A%s: %s" % (
                 algo_label(B), " sharing the domain object" if sc.get("share_domain") else "", d or "queries differ"), rounds))
         if shared != x.domain_copy:
